@@ -2012,3 +2012,20 @@ package ring
 //@   requires ringwf(r) && len(p1) >= 1 && r.level < len(p2.Coeffs)
 //@   requires forall(k, 0, len(p1), r.level < len(p1[k].Coeffs))
 //@   loop 0 invariant 0 <= i && i <= len(p1)
+
+// A decoder stores what it decodes in the caller's object (C08; finding F41): see /verif/cmd/lvc/fieldordercheck.go
+//@ decodes Poly.ReadFrom
+//@   property C08
+//
+//@ decodes Poly.UnmarshalBinary
+//@   property C08
+//
+//@ decodes Ring.UnmarshalBinary
+//@   property C08
+//
+//@ decodes Ring.UnmarshalJSON
+//@   property C08
+//
+//@ decodes Type.UnmarshalJSON
+//@   property C08
+//
